@@ -47,6 +47,9 @@ Q = [
     'SxCFxVyFy', 'AVxFxSxNFx', 'Fm:VxCGxFx:Gm', 'KFmGm:VxKFxGx',
     # a universal whose own sentence introduces the constant it must be instantiated with
     'Hmm:VxHxm', 'SzHzz:SyVxHxy', 'Hnm:VxHxm:Gn', 'Hmn:VxVyHxy',
+    # the last unsubscripted constant on the branch, then two witnesses (the counter of fresh
+    # constants wraps to the first subscript)
+    'Hs:SxKFxGs:SxNFx', 'Fs:SxGx:SxNGx:Gs',
 ]
 
 MQ = [
@@ -107,6 +110,19 @@ def depth1_pairs():
     for c in sents:
         for p in sents:
             out.append(f'{c}:{p}')
+    return out
+
+
+def side_premise():
+    '''a binary sentence or its negation as premise, a literal over one of its letters as second
+    premise, an unrelated letter or an operand as conclusion (the rule for the compound premise
+    is applied next to something that decides one operand)'''
+    out = []
+    for op in BINARY:
+        for neg in ('', 'N'):
+            for side in ('a', 'b', 'Na', 'Nb'):
+                for concl in ('c', 'b', 'a'):
+                    out.append(f'{concl}:{neg}{op}ab:{side}')
     return out
 
 
